@@ -724,10 +724,10 @@ class VM:
         elif op == OpCode.IN:
             obj = self.stack.pop()
             key = self.stack.pop()
-            if not isinstance(obj, JSObject):
+            if not isinstance(obj, (JSObject, JSFunction)):
                 raise JSTypeError("Cannot use 'in' operator on non-object")
             key_str = self._to_property_key(key)
-            self.stack.append(obj.has(key_str))
+            self.stack.append(self._has_property(obj, key_str))
 
         # Control flow
         elif op == OpCode.JUMP:
@@ -1333,6 +1333,51 @@ class VM:
             return UNDEFINED
 
         return UNDEFINED
+
+    def _has_own_property(self, obj: JSValue, key_str: str) -> bool:
+        """Does the object itself (not its prototype chain) have the property?"""
+        if isinstance(obj, JSFunction):
+            if key_str in ("length", "name"):
+                return True
+            if key_str == "prototype":
+                return hasattr(obj, "_prototype")
+            return key_str in getattr(obj, "_properties", ())
+        if self._is_array_element(obj, key_str):
+            return True
+        return (
+            key_str in obj._properties
+            or key_str in obj._getters
+            or key_str in obj._setters
+        )
+
+    def _is_array_element(self, obj: JSValue, key_str: str) -> bool:
+        """Is key_str the length or an existing element of the (typed) array obj?"""
+        if not isinstance(obj, (JSArray, JSTypedArray)):
+            return False
+        if key_str == "length":
+            return True
+        return (
+            key_str.isascii()
+            and key_str.isdigit()
+            and str(int(key_str)) == key_str
+            and int(key_str) < obj.length
+        )
+
+    def _has_property(self, obj: JSValue, key_str: str) -> bool:
+        """HasProperty: own properties (data or accessor), then the prototype chain."""
+        if isinstance(obj, JSFunction):
+            # (the methods every function inherits)
+            return self._has_own_property(obj, key_str) or key_str in (
+                "bind",
+                "call",
+                "apply",
+                "toString",
+            )
+        while isinstance(obj, JSObject):
+            if self._has_own_property(obj, key_str):
+                return True
+            obj = obj._prototype
+        return False
 
     def _typed_array_index(self, key_str: str) -> Tuple[bool, Optional[int]]:
         """Classify a property key of a typed array.
